@@ -406,7 +406,12 @@ def check(prop: str, tier: str) -> int:
 def confirm_shrink_write(engine, prop, case, v, harness_msgs):
     target = vclass(v)
 
+    deadline = time.time() + float(os.environ.get("VERIF_SHRINK_WALL_S", "900"))
+
     def same_failure_many(cands):
+        if time.time() > deadline and len(cands) > 1:
+            # shrinking is best effort and bounded in wall time: what has been reached so far is the replay file
+            return [False] * len(cands)
         res = run_cases(engine, cands)
         out = []
         for status, r in res:
